@@ -505,4 +505,22 @@ theorem mouse_update_body_error_keeps_hits (e : EOracle) (fuel : Nat) (s : St) (
   rw [← h2]
   exact Lemmas.VxfwBodyRun.eMouseUpdate_err_hits e fuel s t h1
 
+/-- **The `Run` loop with the frame step interpreted down to the handler calls**: `bRunAll` = `bRun` whose frame step runs
+    `mh.update` with `hitTest` / `containsPoint` from their bodies and `a.fh.updatePath` with `findPath` → `childHasFocus` and the
+    best-effort `focusWidget` from theirs.  It too is the model's `eRun`, over every history, oracle, failing-call set … -/
+theorem run_all_bodies_eq_model (e : EOracle) (fuel : Nat) (root : Id) (t0 : STree) (steps : List Step) :
+    bRunAll genBodies genCallees e fuel root t0 steps = some (eRun e (fuel + 1) root t0 steps) := by
+  have hB : genBodies = Lemmas.VxfwBodyRun.expB := by
+    unfold genBodies Lemmas.VxfwBodyRun.expB
+    rw [body_as_expected, mouse_body_as_expected, mouse_update_body_as_expected, hover_bodies_as_expected.1,
+      hover_bodies_as_expected.2, update_path_body_as_expected, Lemmas.VxfwBody.parse_fhe, Lemmas.VxfwBody.parse_mhe,
+      Lemmas.VxfwBodyX.parse_mu, Lemmas.VxfwBody.parse_mx, Lemmas.VxfwBody.parse_me, Lemmas.VxfwBodyX.parse_up]
+  rw [hB, genCallees_eq]
+  exact Lemmas.VxfwBodyAll.bRunAll_eq e fuel root t0 steps
+
+/-- … hence equal to the loop `c15_over_executed_bodies` speaks about: every clause proved there holds of the deeper loop. -/
+theorem run_all_bodies_eq_run_bodies (e : EOracle) (fuel : Nat) (root : Id) (t0 : STree) (steps : List Step) :
+    bRunAll genBodies genCallees e fuel root t0 steps = bRun genBodies e fuel root t0 steps := by
+  rw [run_all_bodies_eq_model, run_bodies_eq_model]
+
 end VaxisModel.Props.C15Body
